@@ -547,6 +547,77 @@ def barrier_shape_programs():
                 yield hdr + [{"t": "barrier", "qs": [list(x) for x in args]}, {"t": "qop", "op": {"o": "call", "n": "x", "ps": [], "qs": [["q", 0]]}}]
 
 
+def empty_register_programs():
+    """operands over `qreg q[a]; qreg z[0]; qreg r[b];`: every tuple over {q[0], q, z, r[0], r} for one-, two- and
+    three-operand gates (built-in, qelib1, user-defined), plain and behind `if`; measure / barrier with the empty register.
+    For the standard an operation on empty registers has no instance — but its arity, the equal-size rule and the
+    declarations are still checked."""
+    g1 = {"t": "gate", "n": "gone", "ps": [], "qs": ["a"], "body": [{"o": "call", "n": "h", "ps": [], "qs": ["a"]}]}
+    g2 = {"t": "gate", "n": "gtwo", "ps": ["p"], "qs": ["a", "b"],
+          "body": [{"o": "call", "n": "cx", "ps": [], "qs": ["a", "b"]}, {"o": "call", "n": "rz", "ps": [["id", "p"]], "qs": ["b"]}]}
+    for a, b in ((1, 1), (2, 1), (2, 2)):
+        hdr = [{"t": "version"}, {"t": "incl", "f": "qelib1.inc"}, {"t": "qreg", "n": "q", "k": a}, {"t": "qreg", "n": "z", "k": 0},
+               {"t": "qreg", "n": "r", "k": b}, {"t": "creg", "n": "c", "k": 1}, {"t": "creg", "n": "e", "k": 0}, g1, g2]
+        U = [["q", 0], ["q", None], ["z", None], ["z", 0], ["r", 0], ["r", None]]
+        tail = [{"t": "qop", "op": {"o": "call", "n": "x", "ps": [], "qs": [["q", 0]]}}]
+        gates = [(1, "h", []), (1, "U", None), (1, "gone", []), (1, "rx", [["pi"]]), (2, "cx", []), (2, "CX", None),
+                 (2, "gtwo", [["lit", "0.5"]]), (2, "cu1", [["pi"]]), (1, "cx", []), (2, "h", []), (1, "gtwo", [["pi"]]),
+                 (2, "gone", []), (1, "rx", [])]
+        if (a, b) == (2, 1):
+            gates.append((3, "ccx", []))
+        for k, name, ps in gates:
+            for args in itertools.product(U, repeat=k):
+                if not any(x[0] == "z" for x in args):
+                    continue
+                args = [list(x) for x in args]
+                if name == "U":
+                    op = {"o": "U", "e": [["pi"], ["lit", "0"], ["pi"]], "q": args[0]}
+                elif name == "CX":
+                    op = {"o": "CX", "a": args[0], "b": args[1]}
+                else:
+                    op = {"o": "call", "n": name, "ps": ps, "qs": args}
+                yield hdr + [{"t": "qop", "op": op}] + tail
+                if k <= 2:
+                    yield hdr + [{"t": "if", "c": "c", "k": 1, "op": op}] + tail
+        for qa, ca in ((["z", None], ["e", None]), (["z", None], ["c", None]), (["q", None], ["e", None]), (["z", 0], ["c", 0]),
+                       (["q", 0], ["e", 0])):
+            yield hdr + [{"t": "qop", "op": {"o": "measure", "q": qa, "c": ca}}] + tail
+        for args in itertools.product(U, repeat=2):
+            yield hdr + [{"t": "barrier", "qs": [list(x) for x in args]}] + tail
+        for kk in (0, 1, 2):
+            yield hdr + [{"t": "if", "c": "e", "k": kk, "op": {"o": "call", "n": "x", "ps": [], "qs": [["q", 0]]}}] + tail
+
+
+def if_value_programs():
+    """`if(c==k)` for registers of 0-3 bits and EVERY k in 0 .. 2^n+2, on a qelib1 gate, a broadcast, a user gate, and
+    on operations that must be refused whatever the value is (undeclared gate / register, index out of range, arity)"""
+    g1 = {"t": "gate", "n": "gone", "ps": ["p"], "qs": ["a"], "body": [{"o": "call", "n": "rx", "ps": [["id", "p"]], "qs": ["a"]}]}
+    ops = [{"o": "call", "n": "x", "ps": [], "qs": [["q", 0]]},
+           {"o": "call", "n": "cx", "ps": [], "qs": [["q", None], ["r", None]]},
+           {"o": "call", "n": "gone", "ps": [["pi"]], "qs": [["q", 1]]},
+           {"o": "U", "e": [["pi"], ["lit", "0"], ["pi"]], "q": ["r", None]},
+           {"o": "CX", "a": ["q", 0], "b": ["r", 1]},
+           {"o": "call", "n": "nosuchgate", "ps": [], "qs": [["q", 0]]},
+           {"o": "call", "n": "x", "ps": [], "qs": [["nosuchreg", 0]]},
+           {"o": "call", "n": "x", "ps": [], "qs": [["q", 2]]},
+           {"o": "call", "n": "cx", "ps": [], "qs": [["q", 0], ["q", 0]]},
+           {"o": "call", "n": "rx", "ps": [], "qs": [["q", 0]]},
+           {"o": "call", "n": "gone", "ps": [], "qs": [["q", 0]]},
+           {"o": "call", "n": "rx", "ps": [["^", ["lit", "2"], ["lit", "2"]]], "qs": [["q", 0]]}]
+    for n in (0, 1, 2, 3):
+        hdr = [{"t": "version"}, {"t": "incl", "f": "qelib1.inc"}, {"t": "qreg", "n": "q", "k": 2}, {"t": "qreg", "n": "r", "k": 2},
+               {"t": "creg", "n": "d", "k": 1}, {"t": "creg", "n": "c", "k": n}, g1]
+        for k in range(0, 2 ** n + 3):
+            for op in ops:
+                yield hdr + [{"t": "if", "c": "c", "k": k, "op": op}, {"t": "qop", "op": {"o": "call", "n": "gone", "ps": [["pi"]], "qs": [["q", 0]]}}]
+
+
+def tree_variant():
+    """which repairs of the importer the checkout under verification has (read from its source with `ast`)"""
+    i = qasm_tables.import_tables()
+    return {k: i[k] for k in ("if_skip", "if_rev", "barrier_checked", "empty_reg_ok", "body_dup")}
+
+
 MUTATIONS = ["undeclared_reg", "undeclared_gate", "index_range", "repeated_qubit", "arity_param", "arity_qubit",
              "reset", "opaque", "power", "function", "broadcast_mismatch", "free_id", "if_undeclared_creg",
              "measure_range", "measure_sizes", "body_undeclared_gate", "no_header", "body_arity", "zero_div",
@@ -557,6 +628,20 @@ MUTATIONS = ["undeclared_reg", "undeclared_gate", "index_range", "repeated_qubit
 # implementation (correspondence) but not generated by the oracle sweeps
 FINDING_MUTATIONS = ("if_value_range", "barrier_undeclared", "body_repeated_qubit", "body_barrier_undeclared",
                      "empty_register")
+
+
+def finding_mutations(variant):
+    """the finding classes the checkout still has (a repaired class goes back into the oracle sweeps)"""
+    out = []
+    if not variant["if_skip"]:
+        out.append("if_value_range")
+    if not variant["barrier_checked"]:
+        out += ["barrier_undeclared", "body_barrier_undeclared"]
+    if not variant["body_dup"]:
+        out.append("body_repeated_qubit")
+    if not variant["empty_reg_ok"]:
+        out.append("empty_register")
+    return tuple(out)
 
 
 def mutate(rng, prog, kind):
@@ -910,18 +995,27 @@ class C04(PropertyCheck):
         "QipVerif.C04.shortcut_sound",
         "QipVerif.C04.signatures_agree",
         "QipVerif.C04.import_faithful_partial",
+        "QipVerif.C04.import_faithful",
         "QipVerif.C04.import_den_partial",
         "QipVerif.C04.import_unitary_partial",
         "QipVerif.C04.import_custom_partial",
         "QipVerif.C04.cond_onebit",
+        "QipVerif.C04.cond_bits",
+        "QipVerif.C04.cond_never",
+        "QipVerif.C04.cond_faithful",
         "QipVerif.C04.import_rejects_undeclared_gate",
         "QipVerif.C04.import_rejects_bad_argument",
         "QipVerif.C04.import_rejects_arity",
+        "QipVerif.C04.import_rejects_bad_barrier",
+        "QipVerif.C04.import_rejects_body_barrier",
+        "QipVerif.C04.import_barrier_witnesses",
+        "QipVerif.C04.import_empty_register_witnesses",
         "QipVerif.C04.import_rejects_arity_witnesses",
         "QipVerif.C04.import_rejects_qubit_witnesses",
         "QipVerif.C04.import_rejects_unsupported_witnesses",
         "QipVerif.C04.import_substitution_witnesses",
         "QipVerif.C04.if_bitorder_counterexample",
+        "QipVerif.C04.if_bitorder_repaired",
         "QipVerif.C04.if_value_counterexample",
         "QipVerif.C04.if_measure_counterexample",
     ]
@@ -1048,10 +1142,14 @@ class C04(PropertyCheck):
         self._run(ctx, res, uniq, ["stream=operand-shapes"])
         self._run(ctx, res, list(measure_shape_programs()), ["stream=measure-shapes"])
         self._run(ctx, res, list(barrier_shape_programs()), ["stream=barrier-shapes"])
+        self._run(ctx, res, list(empty_register_programs()), ["stream=empty-registers"])
+        self._run(ctx, res, list(if_value_programs()), ["stream=if-values"])
         res.notes.append("exhaustive: every operand-shape tuple over {q[0], q[last], q, r[0], r[last], r} for 2-operand gates "
                          "(cx, CX, cz, cu1, user gate) on registers of sizes 1-3 x 1-3 and for 3-operand gates (ccx, user gate), "
                          "plain and behind `if`; every measure operand shape (element / out of range / register / undeclared / "
-                         "wrong kind on both sides); barrier operand tuples")
+                         "wrong kind on both sides); barrier operand tuples; every operand tuple containing an EMPTY register "
+                         "for 1-3-operand gates, measure and barrier; `if(c==k)` for registers of 0-3 bits and every k up to "
+                         "2^n+2 on accepted and on refused operations")
         res.exhaustive = True
         res.notes.append("systematic: every qelib1 gate, U and CX x {indexed, whole-register broadcast, if on a 1-bit "
                          "register, if on a 2-bit register}; then generated programs and their malformed variants")
@@ -1086,11 +1184,25 @@ class C04(PropertyCheck):
     # ------------------------------------------------------------------------------------------------
     def oracle_replay(self, ctx, w):
         # witnesses found by the sweeps carry the mode they were evaluated in (known `if` bit order tolerated)
-        return property_fails(w["prog"], lenient_if=bool(w.get("_lenient_if")))
+        # — a tolerance that only exists while the checkout still has that bit order
+        return property_fails(w["prog"], lenient_if=bool(w.get("_lenient_if")) and not tree_variant()["if_rev"])
 
     def _stream(self, ctx):
         rng = ctx.rng
         g = Gen(rng)
+        variant = tree_variant()
+        skip_kinds = finding_mutations(variant)
+        # repaired classes are swept systematically
+        extra = []
+        if variant["if_skip"]:
+            extra += list(if_value_programs())
+        if variant["empty_reg_ok"]:
+            extra += list(empty_register_programs())
+        if variant["barrier_checked"]:
+            extra += [p for p in barrier_shape_programs()][::7]
+        rng.shuffle(extra)
+        for p in extra[: (len(extra) if ctx.thorough else 50)]:
+            yield p
         # operand shapes first: element + containing register must be rejected, element + other register imported
         shapes = list(shape_programs([(2, 2), (1, 3), (3, 1)], with_three=False)) + \
             list(shape_programs([(2, 1)], with_three=True))
@@ -1103,7 +1215,7 @@ class C04(PropertyCheck):
             p = g.program()
             yield p
             if rng.random() < 0.5:
-                m = mutate(rng, p, rng.choice([k for k in MUTATIONS if k not in FINDING_MUTATIONS]))
+                m = mutate(rng, p, rng.choice([k for k in MUTATIONS if k not in skip_kinds]))
                 if m is not None:
                     yield m
 
@@ -1112,28 +1224,35 @@ class C04(PropertyCheck):
         """outside the recorded findings: no `if` whose operation is a measurement"""
         return not any(s["t"] == "if" and s["op"]["o"] in ("measure", "reset") for s in prog)
 
+    @staticmethod
+    def _witness(p, lenient):
+        return {"prog": p, "_lenient_if": True} if lenient else {"prog": p}
+
     def oracle_search(self, ctx, budget_s):
         t0 = time.time()
+        # the recorded bit order of multi-bit `if` is tolerated only while the checkout still has it
+        lenient = not tree_variant()["if_rev"]
         for p in self._stream(ctx):
             if time.time() - t0 > budget_s:
                 return
             if not self._in_sweep_class(p):
                 continue
-            f, d = property_fails(p, lenient_if=True)
+            f, d = property_fails(p, lenient_if=lenient)
             if f:
-                yield {"prog": p, "_lenient_if": True}, d
+                yield self._witness(p, lenient), d
 
     def oracle_always(self, ctx):
         n = 0
+        lenient = not tree_variant()["if_rev"]
         for p in self._stream(ctx):
             n += 1
-            if n > (2500 if ctx.thorough else 90):
+            if n > (2500 if ctx.thorough else 140):
                 return
             if not self._in_sweep_class(p):
                 continue
-            f, d = property_fails(p, lenient_if=True)
+            f, d = property_fails(p, lenient_if=lenient)
             if f:
-                yield {"prog": p, "_lenient_if": True}, d
+                yield self._witness(p, lenient), d
 
 
 CHECK = C04()
